@@ -34,6 +34,14 @@ CHECKS = {
          "Every region of 1..4 (quick) / 1..5 (thorough) segments with lengths 1..3 and every per-segment orientation, listed and complemented (plus nested shapes) x all five modifier forms with both offsets in [-len-3,len+3]: the atoms covered by Resize equal the slice [lo,hi) of the spliced axis (outward extension of the first/last segment outside), zero-length results sit on the right boundary, Locate bytes agree, and the same law holds for the complemented region. Every modifier value prints and re-parses to itself; every modifier token string of <=6 tokens is a parse/print fixed point; every locator string X, @M, X@M assembled from modifiers, points, ranges, complement ranges and selectors is compared with the reference semantics on 6 feature tables.",
          "Segments of a region are disjoint with gap 1; spliced-axis model written independently of region.go; selector reference from C19.",
          "DESIGN.md §5 C08"),
+ "C11": (MC, "explicit enumeration of all programs of bounded depth over a heap of values sharing buffers, state invariant 'every heap value reads as when it entered the heap'",
+         "Every program of 1..2 (quick) / 1..3 (thorough) operations drawn from 24 operation kinds (insert, embed, delete, erase, slice, wrap-around slice, concat, reverse, rotate, complement, transcribe, With*, repair, filter, sorted feature insertion, locate, search/match, copy) applied to any values already in the heap (host, guest, a sibling sharing their buffers, earlier results), for 3 residue-buffer shapes x 3 feature-table shapes x {BasicSequence, GenBank}; after every transition the accessor-level snapshot of every heap value must be unchanged and repeating the call must give the same result.",
+         "Observability = Bytes/Info/Features of each value; small fixed argument menus; panicking operations end a program.",
+         "DESIGN.md §5 C11"),
+ "C12": (MC, "exhaustive enumeration of programs slice;..;concat;repair and repair;repair over tables x cut sets; per-class derivability oracle + restoration",
+         "Every table of 1..2 (quick) / 1..3 (thorough) features over a location menu x 3 keys x equal/distinct qualifiers x every set of 1..3 cut positions on 8 residues is cut, concatenated and repaired on the real API; every pair of (partial) ranges on either strand goes straight into Repair. Oracle per (key, qualifiers) class: the output must be obtainable from the input by legal merges only (abutting same-strand ranges, 3'-partial meeting 5'-partial, any abutting for source), coverage preserved, Repair idempotent, never a panic; table-unique features are restored to their original denotation and markers.",
+         "Four class shapes are known-broken (join members, two complement members, point/site members, order/ambiguous fragments) and reported as KNOWN-FINDING; the live guarantee is on contiguous forward ranges and on the safety clauses of everything else.",
+         "DESIGN.md §5 C12"),
  "C16": (MC, "exhaustive enumeration of every sequence length 0..N and every single-byte mutation of short blocks through NewOrigin/Origin/scanner (LF and CRLF) and, by overlay export, the two internal ORIGIN reader paths",
          "Every length 0..1300 (quick) / 0..12000 (thorough) with residues cycling through all printable bytes: the block equals an independently written layout, Len() before and after decoding equals n, decoding restores the residues, re-formatting is stable, the closed-form size arithmetic agrees with the block, and a record carrying the block is read with identical residues through the fast (LF) and slow (CRLF) reader paths. For every length <=70 (quick) / <=130 (thorough) every offset of the block x 9 replacement bytes: both line-end variants agree, and validateOrigin and slowGenBankOriginParser (exported into the checker by a build overlay, nothing committed to /repo) agree in verdict and output.",
          "If the unexported names disappear the overlay build falls back and the internal sub-check is reported as skipped in the evidence; seqio parsing is serialised (pars combinators are not goroutine-safe).",
